@@ -384,6 +384,10 @@ LAYOUTS = [
     ("shorter-prior", "ABCD", "D"),
     ("nothing-reusable", "ABCD", "----"),
     ("f2-layout", "ABAA", "-A"),
+    # a wanted chunk occurs twice in the prior output before other wanted chunks
+    ("complete-with-duplicate", "AABC", "AABC"),
+    ("duplicate-before-wanted", "ABCA", "AA-BC"),
+    ("triple-then-moved", "AAAB", "BAAA"),
 ]
 
 
@@ -731,6 +735,81 @@ def c12(ctx):
 
 # ------------------------------------------------------------------ C13: write log of the real binary (strace)
 
+def big_chunks(bita, root, viol, cov):
+    """Chunks larger than one write(2) of the runtime accepts (2 MiB): consecutive writes are merged,
+    then every merged piece must be exactly one source chunk at its offset, once, never in place."""
+    M = 1 << 20
+    blocks = [bytes([65 + k]) * 7 + bytes((i * (k + 3)) % 251 for i in range(3 * M - 7)) for k in range(3)]
+    source = blocks[0] + blocks[1] + blocks[2] + b"t" * M
+    chunks = {0: 3 * M, 3 * M: 3 * M, 6 * M: 3 * M, 9 * M: M}
+    d = os.path.join(root, "big")
+    os.makedirs(d)
+    src, arc = os.path.join(d, "src.bin"), os.path.join(d, "a.cba")
+    with open(src, "wb") as f:
+        f.write(source)
+    r = sh([bita, "compress", "--fixed-size", "3MiB", "--compression", "none", "-i", src, arc])
+    if r.returncode != 0:
+        raise RuntimeError("compress failed: " + r.stderr.decode()[-300:])
+    cov["large_chunk_cases"] = 0
+    for name, prior, in_place in (("empty-output", b"", set()),
+                                  ("swapped-blocks", blocks[1] + blocks[0] + blocks[2] + b"t" * M, {6 * M, 9 * M}),
+                                  ("tail-differs", blocks[0] + blocks[1] + blocks[2] + b"x" * M, {0, 3 * M, 6 * M})):
+        out = os.path.join(d, name + ".img")
+        log = os.path.join(d, name + ".trace")
+        with open(out, "wb") as f:
+            f.write(prior)
+        r = sh(["strace", "-f", "-qq", "-s", "0", "-P", out, "-e", "trace=lseek,write,read,pwrite64,pread64,ftruncate", "-o", log,
+                bita, "clone", "--seed-output", arc, out], timeout=300)
+        cov["large_chunk_cases"] += 1
+        detail = {"case": "3 MiB chunks: " + name, "in_place": sorted(in_place)}
+        if r.returncode != 0:
+            viol.add("valid-clone-failed", dict(detail, stderr=r.stderr.decode()[-300:]))
+            continue
+        pos, seg, done = 0, None, []
+        bad = None
+        for line in open(log, errors="replace"):
+            line = line.split(None, 1)[1] if line[:1].isdigit() else line
+            if "= " not in line:
+                continue
+            try:
+                ret = int(line.rsplit("= ", 1)[1].split()[0])
+            except ValueError:
+                continue
+            if line.startswith("lseek("):
+                pos = ret
+            elif line.startswith("read("):
+                pos += max(ret, 0)
+            elif line.startswith(("pwrite64(", "pread64(")):
+                bad = "unexpected-pwrite"
+            elif line.startswith("write("):
+                o, n = pos, max(ret, 0)
+                pos += n
+                cov["writes_observed"] += 1
+                if seg is not None and o == seg[1] and (seg[1] - seg[0]) < chunks.get(seg[0], 0):
+                    seg = (seg[0], seg[1] + n)
+                else:
+                    if seg is not None:
+                        done.append(seg)
+                    seg = (o, o + n)
+        if seg is not None:
+            done.append(seg)
+        seen = set()
+        for a, b in done:
+            if b > len(source):
+                bad = bad or "write-beyond-source-length"
+            elif chunks.get(a) != b - a:
+                bad = bad or "write-not-a-source-chunk-at-its-offset"
+            elif a in in_place:
+                bad = bad or "in-place-location-rewritten"
+            elif a in seen:
+                bad = bad or "location-written-twice"
+            seen.add(a)
+        if bad:
+            viol.add(bad, dict(detail, merged_writes=done[:12]))
+        elif open(out, "rb").read() != source:
+            viol.add("success-with-wrong-output", detail)
+
+
 def c13(ctx):
     t0 = time.time()
     bita = ctx["bita"]
@@ -745,13 +824,14 @@ def c13(ctx):
         cases.append((("seeded-inplace-" + seedw, "ABCDAB", "-B-"), "in-place", seedw))
     cases.append((("force-over-existing", "ABC", "ABXXXXXXXXXX"), "force", None))
     # every case once with full 64-byte chunk hashes and once with hashes truncated to 16 bytes
-    cases = [c + (hl,) for c in cases for hl in (64, 16)]
+    # ... and each of those with and without --verify-output (a second pass over the output)
+    cases = [c + (hl, vo) for c in cases for hl in (64, 16) for vo in (False, True)]
     distinct = set()
     samples = []
     cov = {"writes_observed": 0, "in_place_locations": 0}
 
     def one(i):
-        (name, s, p), kind, seedw, hl = cases[i]
+        (name, s, p), kind, seedw, hl, vo = cases[i]
         d = os.path.join(root, f"c{i}")
         os.makedirs(d)
         source, prior = words(s), words(p, 3)
@@ -777,13 +857,15 @@ def c13(ctx):
             with open(sp, "wb") as f:
                 f.write(words(seedw, 5))
             flags += ["--seed", sp]
+        if vo:
+            flags = flags + ["--verify-output"]
         log = os.path.join(d, "trace.log")
         if kind == "new-file":
             open(out, "wb").close()  # strace -P needs an existing path; an empty file opened with -f... use seed-output on empty file
             flags = flags + ["--seed-output"] if "--seed-output" not in flags else flags
         r = sh(["strace", "-f", "-qq", "-s", "100000", "-P", out, "-e", "trace=lseek,write,read,pwrite64,pread64,ftruncate,truncate", "-o", log,
                 bita, "clone"] + flags + [arc, out])
-        detail = {"case": name, "source": s, "prior": p, "kind": kind, "seed": seedw, "hash_length": hl}
+        detail = {"case": name, "source": s, "prior": p, "kind": kind, "seed": seedw, "hash_length": hl, "verify_output": vo}
         if r.returncode != 0:
             detail["stderr"] = r.stderr.decode()[-300:]
             viol.add("valid-clone-failed", detail)
@@ -853,9 +935,10 @@ def c13(ctx):
                 cov["in_place_locations"] += k[2]
                 if len(samples) < 4:
                     samples.append({"case": k[0][0], "kind": k[0][1], "seed": k[0][2], "writes": k[1], "in_place_locations": k[2]})
+    big_chunks(bita, root, viol, cov)
     shutil.rmtree(root, ignore_errors=True)
-    cov.update({"evaluations": len(cases), "distinct_nontrivial": len(distinct), "exhaustive": True, "samples": samples,
-                "rule": "real binary under strace -P <output> (lseek/read/write/ftruncate): 11 prior layouts x {in place, onto an empty file} + seeded clones + forced overwrite; offsets are reconstructed from the lseek/read/write sequence; oracle: every write(2) on the output is one source chunk at its source offset, no location twice, no location the prior held in place, nothing beyond the source length, ftruncate to exactly the source length"})
+    cov.update({"evaluations": len(cases) + cov.get("large_chunk_cases", 0), "distinct_nontrivial": len(distinct), "exhaustive": True, "samples": samples,
+                "rule": "real binary under strace -P <output> (lseek/read/write/ftruncate): 11 prior layouts x {in place, onto an empty file} + seeded clones + forced overwrite, each with 64- and 16-byte hashes and with / without --verify-output; 3 MiB chunks (more than one write(2) takes: consecutive writes are merged before judging) onto an empty file and in place over swapped blocks; offsets are reconstructed from the lseek/read/write sequence; oracle: every write(2) on the output is one source chunk at its source offset, no location twice, no location the prior held in place, nothing beyond the source length, ftruncate to exactly the source length"})
     return result(ctx["pid"], "exploration", cov, viol, t0, ["A5; FixedSize(4) archives so that the expected chunking of the prior output is the aligned 4-byte grid"])
 
 
